@@ -1077,9 +1077,6 @@ pub fn run(ctx: &Ctx) -> Report {
             for h in 1..=vmax {
                 // Miri only: of the VarDisplay<TriColor> geometries inside the known mis-sizing region
                 // (w%8 in 1..=4, thousands of caught panics) keep three
-                if miri && kind == Kind::Tri && (1..=4).contains(&(w % 8)) && ![(1, 1), (4, 3), (9, 10)].contains(&(w, h)) {
-                    continue;
-                }
                 let geo = Geo { w, h, kind, bwrbit: false };
                 let cost = ((w + 7) * (h + 7)) as u64 * 8 * kind.ncol() as u64 * (geo.total() as u64 + 200);
                 cases.push((cost, Case::Var { w, h, kind }));
@@ -1089,6 +1086,7 @@ pub fn run(ctx: &Ctx) -> Report {
     // heaviest first: par_run hands out chunks dynamically, so this balances the tail
     cases.sort_by(|a, b| b.0.cmp(&a.0));
     let cases: Vec<Case> = cases.into_iter().map(|c| c.1).collect();
+    let cases = crate::report::shard(cases, ctx.shard);
     let threads = if miri { 1 } else { ctx.threads };
     let seed = ctx.seed;
     let mut rep = par_run(&cases, threads, |_i, c, rep| match c {
